@@ -11,6 +11,7 @@ import (
 
 	"github.com/glyphlang/glyph/pkg/ast"
 	"github.com/glyphlang/glyph/pkg/compiler"
+	"github.com/glyphlang/glyph/pkg/interpreter"
 	"github.com/glyphlang/glyph/pkg/server"
 	"github.com/glyphlang/glyph/pkg/web"
 	"github.com/glyphlang/glyph/pkg/websocket"
@@ -169,6 +170,19 @@ func setupRoutes(module *ast.Module, filePath string, forceInterpreter ...bool) 
 					}
 					printWarning(fmt.Sprintf("Compilation failed for %s: %v, falling back to interpreter", route.Path, compileErr))
 					useCompiler = false
+					break
+				}
+				// A function the VM does not have would answer every request
+				// with "undefined function"; the interpreter may well have it
+				// (its table of built-ins is larger).
+				for _, name := range c.UnsupportedCalls() {
+					if interpreter.HasBuiltin(name) {
+						printInfo(fmt.Sprintf("%s calls %s, which compiled routes cannot, using interpreter mode", route.Path, name))
+						useCompiler = false
+						break
+					}
+				}
+				if !useCompiler {
 					break
 				}
 				// The router gives a duplicate declaration to the earlier
